@@ -113,6 +113,18 @@ func (s *State) Canon(sc Scope) string {
 // ACLs bound at interfaces the target does not know, and everything such
 // objects reference. Keys are "acl:NAME" / "grp:NAME".
 func (s *State) Protected(sc Scope) map[string]bool {
+	prot, _ := s.protectedAndReach(sc)
+	return prot
+}
+
+// ManagedReach is the set of ACLs ("acl:NAME") and object-groups
+// ("grp:NAME") reachable from a managed anchor.
+func (s *State) ManagedReach(sc Scope) map[string]bool {
+	_, reach := s.protectedAndReach(sc)
+	return reach
+}
+
+func (s *State) protectedAndReach(sc Scope) (map[string]bool, map[string]bool) {
 	reach := map[string]bool{}
 	var visitGroup func(string, map[string]bool)
 	visitGroup = func(n string, set map[string]bool) {
@@ -166,7 +178,7 @@ func (s *State) Protected(sc Scope) map[string]bool {
 	for _, n := range s.Gen.protectedACLs(s, sc) {
 		visitACL(n, prot)
 	}
-	return prot
+	return prot, reach
 }
 
 // ObjText is the textual content of a protected object.
